@@ -413,7 +413,8 @@ func typeConverter(t dsl.Type, contextNamespace string, namedType *dsl.NamedType
 			}
 
 			unionClassName, typeParameters := common.UnionClassName(t)
-			if namedType != nil {
+			if namedType != nil && common.IsUnionOfNamedType(namedType, t) {
+				// (only the union that the named type itself defines goes by its name; one nested deeper has its own class)
 				unionClassName = namedType.Name
 				if namedType.Namespace != contextNamespace {
 					unionClassName = fmt.Sprintf("%s.%s", common.NamespaceIdentifierName(namedType.Namespace), unionClassName)
